@@ -136,7 +136,7 @@ impl Prop for C08 {
         "C08"
     }
     fn cases(&self) -> (u64, u64) {
-        (60_000, 2_000_000)
+        (150_000, 2_000_000)
     }
     fn rule(&self) -> &'static str {
         "choice bytes -> conventional command trees (depth <=3, <=4 named fields per level, names \
